@@ -237,7 +237,7 @@ package drpcwire
 // "gid"/"gpkt" are ghost copies of the reader id and the partial packet taken at the loop head.
 //@ func (*Reader).ReadPacketUsing
 //@   mode int
-//@   props C09 C13 C05 C02 C18
+//@   props C09 C13 C05 C02 C18 C01
 //@   requires readerInv(r)
 //@   requires arr(buf) == 0 || (arr(buf) != arr(r.buf) && arr(buf) != arr(r.curr))
 //@   modifies memcap(buf), memcap(r.buf), r.curr, r.buf, r.id, r.rerr
@@ -256,6 +256,12 @@ package drpcwire
 //@                       r.id == gid && pkt.ID == gpkt.ID && pkt.Kind == gpkt.Kind && pkt.Control == (gpkt.Control || fr.Control) &&
 //@                       len(pkt.Data) == len(gpkt.Data) + len(fr.Data)
 //@   loop 1 step [notdone] ok ==> !fr.Done && !idLess(fr.ID, gid)
+//@   loop 1 step [C09,C01.payload]      ok ==> forall i int :: 0 <= i && i < len(fr.Data) ==> pkt.Data[len(pkt.Data) - len(fr.Data) + i] == memathead(fr.Data[i])
+//@   loop 1 step [C09,C01.prefix-kept]  ok && !(gid != fr.ID || idZero(gpkt.ID)) ==> forall i int :: 0 <= i && i < len(gpkt.Data) ==> pkt.Data[i] == memathead(gpkt.Data[i])
+//@   loop 1 step [C09,C01.rest-follows] ok ==> arr(r.curr) == arr(fr.Data) && off(r.curr) == off(fr.Data) + len(fr.Data) && off(r.curr) + len(r.curr) == athead(off(r.curr) + len(r.curr))
+//@   loop 1 step [C09,C01.rest-kept]    ok ==> forall i int :: 0 <= i && i < len(r.curr) ==> r.curr[i] == memathead(r.curr[i])
+//@   loop 1 step [C09,C01.pending-grows] !ok ==> len(r.curr) >= athead(len(r.curr))
+//@   loop 1 step [C09,C01.pending-kept]  !ok ==> forall i int :: 0 <= i && i < athead(len(r.curr)) ==> r.curr[i] == athead(r.curr[i])
 //@   site (*Class).Wrap assert [malformed]             pfStatus(r.curr) == 2
 //@   site (*Class).New assert [C09.overflow-justified] arg1 == "data overflow" ==> pfStatus(r.curr) == 1 && len(r.curr) > rdM(r) + 31
 //@   site (*Class).New assert [monotone-justified]     arg1 == "id monotonicity violation (fr:%v r:%v)" ==> idLess(fr.ID, r.id)
@@ -297,6 +303,10 @@ package drpcwire
 //@   props C07 C05 C01
 //@   requires b.w != nil
 //@   modifies allmem
+//@   ghost entry appended = nil
+//@   ghost after:AppendFrame appended = ret
+//@   site AppendFrame assert [C01.frame-appended-as-given] held(b.mu) && arg0 == b.buf && arg1.Data == fr.Data && arg1.ID == fr.ID && arg1.Kind == fr.Kind && arg1.Done == fr.Done && arg1.Control == fr.Control && eventCount("call:AppendFrame") == 0
+//@   site Write assert [C01.flushes-appended] arg1 == appended
 //@   ghost entry wrote = 0
 //@   ghost after:Write wrote = wrote + 1
 //@   ghost after:Write werr = ret1
